@@ -151,6 +151,11 @@ def run(ck, prog):
                         okp = all(z[0] == "call" and z[1].endswith("pop_front") for z in fo)
     ck.ob("R07.3", "includes-from-current-parse", okp, "includes are listed from db.parse(file) of the file being visited",
           msg="collect_sources lists includes from something other than the current parse of the visited file")
+    # every include target recorded in this walk was resolved in this walk (nothing is carried over from the previous one)
+    from .c16 import include_targets
+    cs = prog.body(COLLECT)
+    ck.anchor(cs is not None, "collect_sources not found")
+    include_targets(ck, prog, cs, "R07.3")
     # the host hands every text on to the database: a "same text as last time" filter in the host is blind to the texts
     # the include walk writes straight into the database (A -> B by the walk -> A again would be dropped, leaving B)
     hb = prog.body("ide::analysis::AnalysisHost::set_file_content")
